@@ -84,6 +84,10 @@ class Sim:
         self.ops = []
         self.flags = set()
         self.use_make_store = use_make_store
+        if not use_make_store:
+            # the stores of this history are built with the public constructor on a plain sqlite3 connection (as the
+            # repository's own fixtures and embedding applications do), not through make_store
+            self.ops.append(["mode", "public-constructor"])
         self.open()
 
     def _new(self):
@@ -228,9 +232,10 @@ def make_machine(ctx, dirpath):
 
 
 def replay_ops(ctx, ops, dirpath):
-    sim = Sim(ctx, dirpath)
+    direct = bool(ops) and ops[0] == ["mode", "public-constructor"]
+    sim = Sim(ctx, dirpath, use_make_store=not direct)
     try:
-        for op in ops:
+        for op in ops[1:] if direct else ops:
             sim.do(op)
     finally:
         sim.close()
@@ -247,7 +252,7 @@ def exhaustive_histories(ctx, dirpath, length):
         idx += 1
         if idx % ctx.nshards != ctx.shard:
             continue
-        sim = Sim(ctx, dirpath)
+        sim = Sim(ctx, dirpath, use_make_store=(idx // max(1, ctx.nshards)) % 2 == 0)
         try:
             for j, b in enumerate(adds):
                 sim.do(["add", j, batches[b]])
